@@ -318,6 +318,7 @@ def build_fn(part, sf, unit, opts, canary=None):
     body2, c2 = rules.apply(body, opts, 'fn')
     body2 = fix_assoc(body2)
     if kv.get('assumed'):
+        sig2 = re.sub(r'\(\s*mut self\b', '(self', sig2)
         # contract assumed, body not verified: do not even type-check it (its callees need not be extracted)
         body2 = '{ unimplemented!() }' + '\n' * body2.count('\n')
     for k, v in list(c1.items()) + list(c2.items()):
@@ -489,7 +490,24 @@ def pub_fields(text):
     msk = mask(text)
     ob = msk.find('{')
     if ob < 0:
-        return text
+        # tuple struct: `struct X(A, pub B);`
+        op = msk.find('(')
+        if op < 0:
+            return text
+        cl = match_brace(msk, op, '(', ')')
+        inner = text[op + 1:cl]
+        parts, d, last = [], 0, 0
+        for j, ch in enumerate(mask(inner)):
+            if ch in '(<[':
+                d += 1
+            elif ch in ')>]':
+                d -= 1
+            elif ch == ',' and d == 0:
+                parts.append(inner[last:j])
+                last = j + 1
+        parts.append(inner[last:])
+        parts = [('pub ' + re.sub(r'^\s*pub(\([^)]*\))?\s+', '', q.strip())) if q.strip() else q for q in parts]
+        return text[:op + 1] + ', '.join(parts) + text[cl:]
     out = []
     depth = 0
     i = 0
